@@ -64,14 +64,20 @@ Definition declare (x : nat) (v : value) (e : env) : env :=
 Definition item_of (v : value) : option item :=
   match v with VInt _ z => Some (OInt z) | VBool b => Some (OBool b) | VUnit => None end.
 
+(* MIN / -1 and MIN % -1: for the 8- and 16-bit types the quotient 2^(N-1) simply wraps to MIN (and the remainder
+   is 0) like every other result; for the 32- and 64-bit types the machine division instruction faults (x86 idiv,
+   wasm div_s), no check is inserted by the compiler, and the case is left undefined (excluded from the claims) *)
+Definition div_traps (t : ity) (a b : Z) : bool :=
+  signed t && (32 <=? bits t) && (a =? tmin t) && (b =? -1).
+
 (* arithmetic on one integer type: None = undefined (no run-time check is inserted by the compiler) *)
 Definition arith (o : binop) (t : ity) (a b : Z) : option Z :=
   match o with
   | Add => Some (wrap t (a + b))
   | Sub => Some (wrap t (a - b))
   | Mul => Some (wrap t (a * b))
-  | Div => if (b =? 0) || (signed t && (a =? tmin t) && (b =? -1)) then None else Some (wrap t (Z.quot a b))
-  | Mod => if (b =? 0) || (signed t && (a =? tmin t) && (b =? -1)) then None else Some (wrap t (Z.rem a b))
+  | Div => if (b =? 0) || div_traps t a b then None else Some (wrap t (Z.quot a b))
+  | Mod => if (b =? 0) || div_traps t a b then None else Some (wrap t (Z.rem a b))
   | _ => None
   end.
 Definition compare (o : binop) (a b : Z) : option bool :=
@@ -192,6 +198,26 @@ Fixpoint exec (k : nat) (s : stmt) (en : env) (out : list line) {struct s} : res
              | _ => Wrong
              end)
          end) k en out
+  | SFor x t lo hi body =>
+      bind (eval lo en out) (fun vlo out =>
+      bind (eval hi en out) (fun vhi out =>
+        match vlo, vhi with
+        | VInt t1 l, VInt t2 h =>
+          (fix loop (n : nat) (i : Z) (en : env) (out : list line) {struct n} : res (env * flow) :=
+             match n with
+             | O => Fuel
+             | S n' =>
+               if Z.ltb i h then
+                 bind (exec k body ([(x, VInt t i)] :: en) out) (fun r out =>
+                   match snd r with
+                   | FBreak => Ok (tl (fst r), FNormal) out
+                   | FReturn v => Ok (tl (fst r), FReturn v) out
+                   | _ => loop n' (Z.add i 1) (tl (fst r)) out
+                   end)
+               else Ok (en, FNormal) out
+             end) k l en out
+        | _, _ => Wrong
+        end))
   | SBreak => Ok (en, FBreak) out
   | SContinue => Ok (en, FContinue) out
   | SReturn None => Ok (en, FReturn VUnit) out
